@@ -161,6 +161,10 @@ package main
 //	                             and structs registered by value, panic on the unchanged library (uncomparable / reflect.Pointer
 //	                             of a non-pointer): they are not generated.
 //	                             observation as `close`
+//	closeq <n> <errmask> <procs> <seed>, closeh <n> <errmask> <quals> <holders> <seed>, fdirect <n> <parts> <starts> <seed>
+//	                             (ninth round) closers next to user post-processors that embed the documented default; closers next
+//	                             to other components with an injection point of the closer interface type; the public factory driven
+//	                             directly, without the App. Described where they are defined, at the end of this file.
 //
 // In `conc`, the scan/close cases run in a CHILD process (re-exec, hidden sub `concchild`) with
 // GORACE="halt_on_error=1 exitcode=66": a race report whose stack mentions github.com/go-kid/ioc becomes the
@@ -220,8 +224,12 @@ import (
 	"github.com/go-kid/ioc"
 	"github.com/go-kid/ioc/app"
 	"github.com/go-kid/ioc/component_definition"
+	"github.com/go-kid/ioc/configure"
 	"github.com/go-kid/ioc/container"
+	"github.com/go-kid/ioc/container/factory"
+	"github.com/go-kid/ioc/container/processors"
 	"github.com/go-kid/ioc/container/support"
+	"github.com/go-kid/ioc/definition"
 	"github.com/go-kid/ioc/syslog"
 	"github.com/go-kid/ioc/util/list"
 	"github.com/go-kid/ioc/util/sync2"
@@ -582,6 +590,27 @@ func closeCorpus(w *hx.Writer) {
 	runInChild([]string{"closep 2.2 2 5 52"}, w)
 	runInChild([]string{"closep - r.3 2 53"}, w)
 	runInChild([]string{"closep 4 - 15 54"}, w)
+	// ninth round. User post-processors that keep the default PostProcessAfterInstantiation (false): an Ordered one in front of
+	// the built-in dependency processor, a PriorityOrdered one, one at the dependency processor's own order next to one that
+	// answers true, an unordered one (sorted last), several at once; control without processors
+	w.Put(runCloseQ(6, 0x2A, "o1d", 55, 10))
+	w.Put(runCloseQ(6, 0, "p3d.u0t", 56, 10))
+	w.Put(runCloseQ(3, 0, "o3d.o4t.p0t", 57, 5))
+	w.Put(runCloseQ(4, 0xF, "u0d", 58, 5))
+	w.Put(runCloseQ(8, 0x81, "p0d.o0d.u0d.o9d", 59, 10))
+	w.Put(runCloseQ(1, 0, "o2t", 60, 0))
+	w.Put(runCloseQ(5, 4, "-", 61, 5))
+	// other components with an injection point of the closer interface type: a `qualifier=db` slice populated before the App
+	// (two of six closers qualify, not the first two); three holders at once; single-valued holders; a holder populated after
+	// the App; every closer qualifies; control without holders
+	w.Put(runCloseH(6, 0x12, "ssdssd", "ldb", 62, 10))
+	w.Put(runCloseH(6, 0, "dmsdms", "ldb.omb.lna", 63, 10))
+	w.Put(runCloseH(8, 0x0F, "smsdsmsd", "lmb.ldb", 64, 10))
+	w.Put(runCloseH(5, 3, "sssss", "onb.lnb", 65, 5))
+	w.Put(runCloseH(7, 0x40, "sdsdsds", "odb", 66, 5))
+	w.Put(runCloseH(6, 0, "ssdssd", "lda", 67, 5))
+	w.Put(runCloseH(4, 0, "dddd", "ldb", 68, 5))
+	w.Put(runCloseH(3, 1, "sdm", "-", 69, 5))
 }
 
 func closeGen(rng *hx.Rng, n int, tier string, w *hx.Writer) {
@@ -661,6 +690,12 @@ func closeGen(rng *hx.Rng, n int, tier string, w *hx.Writer) {
 	}
 	for i := 0; i < n/10; i++ {
 		runInChild([]string{genClosePLine(rng.Fork())}, w)
+	}
+	// ninth round, appended: n/8 cases each of closers next to user post-processors that embed the documented default, and of
+	// closers next to other components that have an injection point of the closer interface type (with / without qualifier)
+	for i := 0; i < n/8; i++ {
+		w.Put(genCloseQ(rng.Fork()))
+		w.Put(genCloseH(rng.Fork()))
 	}
 }
 
@@ -2764,6 +2799,12 @@ func runLine(scn string, closeDelayMs int) hx.Case {
 		return runCloseP(f[1], f[2], num(3), num(4), 10)
 	case len(f) == 5 && f[0] == "closek":
 		return runCloseK(int(num(1)), num(2), f[3], num(4), closeDelayMs)
+	case len(f) == 5 && f[0] == "closeq":
+		return runCloseQ(int(num(1)), num(2), f[3], num(4), closeDelayMs)
+	case len(f) == 6 && f[0] == "closeh":
+		return runCloseH(int(num(1)), num(2), f[3], f[4], num(5), closeDelayMs)
+	case len(f) == 5 && f[0] == "fdirect":
+		return runFdirect(int(num(1)), f[2], int(num(3)), num(4))
 	case len(f) == 7 && f[0] == "plog":
 		return runPlog(int(num(1)), int(num(2)), int(num(3)), int(num(4)), num(5), num(6))
 	case len(f) == 3 && f[0] == "rdel":
@@ -3725,6 +3766,10 @@ func concCorpus(w *hx.Writer) {
 	// Range against Store/Delete of one key: every reported pair was stored
 	w.Put(runRdel(4, 1500))
 	w.Put(runRdel(1, 300))
+	// ninth round. The public factory driven directly (no App, no built-in processor looks at the definition registry before the
+	// parallel scan): one tag scanner over 32 components; a recording scanner over 48; three scanners; control with a factory
+	// post-processor that looks at the registry first
+	runInChild([]string{"fdirect 32 t 30 1", "fdirect 48 r 30 2", "fdirect 16 tur 30 3", "fdirect 24 trf 10 4", "fdirect 2 r 30 5"}, w)
 }
 
 func concGen(rng *hx.Rng, n int, tier string, w *hx.Writer) {
@@ -3887,11 +3932,24 @@ func concGen(rng *hx.Rng, n int, tier string, w *hx.Writer) {
 			w.Put(runRdel([]int{2, 3, 4, 4, 6, 8}[r.Intn(6)], rounds))
 		}
 	}
+	// (a-7) ninth round: the public factory driven directly, fresh factory per start: one child process for the batch (quick 6,
+	// thorough 30 lines)
+	{
+		nl := 6
+		if tier == "thorough" {
+			nl = 30
+		}
+		var ls []string
+		for i := 0; i < nl; i++ {
+			ls = append(ls, genFdirectLine(rng.Fork(), tier))
+		}
+		runInChild(ls, w)
+	}
 }
 
 func concReplay(scn string, w *hx.Writer) {
 	f := strings.Fields(scn)
-	if len(f) > 0 && (((f[0] == "scan" || f[0] == "fstart" || f[0] == "gscan") && raceEnabled) || f[0] == "cstart" || f[0] == "closel" || f[0] == "closeb" || f[0] == "plog" || f[0] == "closep") {
+	if len(f) > 0 && (((f[0] == "scan" || f[0] == "fstart" || f[0] == "gscan" || f[0] == "fdirect") && raceEnabled) || f[0] == "cstart" || f[0] == "closel" || f[0] == "closeb" || f[0] == "plog" || f[0] == "closep") {
 		runInChild([]string{scn}, w)
 		return
 	}
@@ -4296,4 +4354,649 @@ func genCloseK(r *hx.Rng) hx.Case {
 		mask = r.U64() & all
 	}
 	return runCloseK(n, mask, string(kinds), r.U64()%1000000, 30)
+}
+
+// ---------------------------------------------------------------- closeq: closers next to USER post-processors (ninth round)
+//
+//	closeq <n> <errmask> <procs> <seed>
+//	                             as `close`, plus user InstantiationAwareComponentPostProcessors written the documented way (they
+//	                             embed processors.DefaultInstantiationAwareComponentPostProcessor). procs = tokens joined by `.`
+//	                             (`-` = none), a token = class + order digit + answer. Class: `p` PriorityOrdered, `o` Ordered,
+//	                             `u` neither (digit 0). Order() = closeqOrders[digit] (-1 0 1 2 3 4 5 8 16 100: below, at and above
+//	                             the orders 2 / 4 / 8 of the built-in dependency / matching / validation processors). Answer: `d` the
+//	                             processor keeps the embedded default PostProcessAfterInstantiation (false: "I do not want to see the
+//	                             properties"), `t` it overrides it and answers true (its PostProcessProperties does nothing).
+//	                             Which processors take part in the start is no business of Close: every registered closer is a
+//	                             registered closer.
+//	                             observation as `close`
+//	closeh <n> <errmask> <quals> <holders> <seed>
+//	                             as `close`, but closer i has the wire qualifier quals[i] (len(quals) = n): `s` none (vCloser), `d`
+//	                             Qualifier() = "db", `m` Qualifier() = "mq"; plus OTHER components that have an injection point of the
+//	                             closer interface type themselves. holders = tokens joined by `.` (`-` = none), a token = kind +
+//	                             qualifier + position. Kind `l`: a field `[]definition.CloserComponent`, `o`: a field
+//	                             `definition.CloserComponent`; qualifier `d` / `m`: the tag `wire:",qualifier=db"` / `…=mq"`, `n`: the
+//	                             tag `wire:""`; position `b`: the holder is named `a-vh<k>` (sorts BEFORE the App's own name, so it is
+//	                             populated before the App), `a`: `z-vh<k>` (after it). A holder whose qualifier no closer carries is a
+//	                             `bad-line` (its field is required: the start fails by design). The holders close nothing.
+//	                             observation as `close`
+//
+// Oracle (both): the exactly-once oracle of `close` — every registered closer invoked once and returned when Close returns
+// (close-not-all-once).
+
+var closeqOrders = []int{-1, 0, 1, 2, 3, 4, 5, 8, 16, 100}
+
+// vQProc: a user post-processor that embeds the documented default and counts the components it is shown
+type vQProc struct {
+	processors.DefaultInstantiationAwareComponentPostProcessor
+	N     string
+	order int
+	seen  int32
+}
+
+func (p *vQProc) Naming() string { return p.N }
+func (p *vQProc) PostProcessBeforeInitialization(component any, componentName string) (any, error) {
+	atomic.AddInt32(&p.seen, 1)
+	return component, nil
+}
+
+type (
+	vQProcU  struct{ vQProc } // not ordered, default answer
+	vQProcO  struct{ vQProc } // Ordered, default answer
+	vQProcP  struct{ vQProc } // PriorityOrdered, default answer
+	vQProcUT struct{ vQProc } // the same three, answering true
+	vQProcOT struct{ vQProc }
+	vQProcPT struct{ vQProc }
+)
+
+func (p *vQProcO) Order() int  { return p.order }
+func (p *vQProcP) Order() int  { return p.order }
+func (p *vQProcP) Priority()   {}
+func (p *vQProcOT) Order() int { return p.order }
+func (p *vQProcPT) Order() int { return p.order }
+func (p *vQProcPT) Priority()  {}
+
+func (p *vQProcUT) PostProcessAfterInstantiation(any, string) (bool, error) { return true, nil }
+func (p *vQProcOT) PostProcessAfterInstantiation(any, string) (bool, error) { return true, nil }
+func (p *vQProcPT) PostProcessAfterInstantiation(any, string) (bool, error) { return true, nil }
+
+type qProcTok struct {
+	class  byte
+	digit  int
+	answer byte
+}
+
+func parseQProcs(s string) ([]qProcTok, bool) {
+	if s == "-" {
+		return nil, true
+	}
+	var out []qProcTok
+	for _, t := range strings.Split(s, ".") {
+		if len(t) != 3 || !strings.ContainsRune("pou", rune(t[0])) || t[1] < '0' || t[1] > '9' || !strings.ContainsRune("dt", rune(t[2])) {
+			return nil, false
+		}
+		if t[0] == 'u' && t[1] != '0' {
+			return nil, false
+		}
+		out = append(out, qProcTok{t[0], int(t[1] - '0'), t[2]})
+	}
+	return out, len(out) <= 6
+}
+
+func newQProc(t qProcTok, k int) (any, string) {
+	base := vQProc{N: fmt.Sprintf("vqp%d", k), order: closeqOrders[t.digit]}
+	ans := "keeps the default PostProcessAfterInstantiation (false)"
+	if t.answer == 't' {
+		ans = "answers true"
+	}
+	switch string([]byte{t.class, t.answer}) {
+	case "ud":
+		return &vQProcU{base}, "not ordered, " + ans
+	case "ut":
+		return &vQProcUT{base}, "not ordered, " + ans
+	case "od":
+		return &vQProcO{base}, fmt.Sprintf("Ordered %d, %s", base.order, ans)
+	case "ot":
+		return &vQProcOT{base}, fmt.Sprintf("Ordered %d, %s", base.order, ans)
+	case "pd":
+		return &vQProcP{base}, fmt.Sprintf("PriorityOrdered %d, %s", base.order, ans)
+	}
+	return &vQProcPT{base}, fmt.Sprintf("PriorityOrdered %d, %s", base.order, ans)
+}
+
+// runCloseQ: see above (`closeq`).
+func runCloseQ(n int, mask uint64, procs string, seed uint64, maxDelayMs int) hx.Case {
+	concQuiet()
+	scn := fmt.Sprintf("closeq %d %d %s %d", n, mask, procs, seed)
+	toks, ok := parseQProcs(procs)
+	if !ok || n < 0 || n > 40 || mask>>uint(n) != 0 {
+		return hx.Case{Scn: scn, Obs: "bad-line", Oracle: "FAIL bad-line"}
+	}
+	rng := hx.NewRng(seed ^ 0xC105EC)
+	var comps []any
+	var samplers []closeSampler
+	nfail, nveto, nearly := 0, 0, 0
+	for i := 0; i < n; i++ {
+		d := time.Duration(0)
+		if maxDelayMs > 0 && rng.P(1, 2) {
+			d = time.Duration(rng.Intn(maxDelayMs*1000+1)) * time.Microsecond
+		}
+		c := &vCloser{N: fmt.Sprintf("vc%03d", i), delay: d, fail: bit(mask, i)}
+		if c.fail {
+			nfail++
+		}
+		comps = append(comps, c)
+		samplers = append(samplers, func() (int32, int32) { return atomic.LoadInt32(&c.calls), atomic.LoadInt32(&c.done) })
+	}
+	var descr []string
+	for k, t := range toks {
+		p, what := newQProc(t, k)
+		comps = append(comps, p)
+		descr = append(descr, what)
+		if t.answer == 'd' {
+			nveto++
+			if t.class == 'p' || (t.class == 'o' && closeqOrders[t.digit] < 2) {
+				nearly++
+			}
+		}
+	}
+	if len(comps) > 1 {
+		r := rng.Intn(len(comps))
+		comps = append(append([]any{}, comps[r:]...), comps[:r]...)
+	}
+	tags := []string{"close", "user-post-processors", fmt.Sprintf("closers=%s", bucket(n)), fmt.Sprintf("failing=%s", bucket(nfail)),
+		fmt.Sprintf("user-processors=%s", bucket(len(toks))), fmt.Sprintf("answering-false=%s", bucket(nveto)),
+		fmt.Sprintf("answering-false-before-the-dependency-processor=%s", bucket(nearly))}
+	if nearly == 0 || n == 0 {
+		tags = append(tags, "trivial")
+	}
+	a := app.NewApp()
+	var err error
+	if out := withWatchdog(20*time.Second, func() { err = a.Run(app.SetComponents(comps...), app.SetConfigLoader()) }); out != "" || err != nil {
+		return hx.Case{Scn: scn, Obs: "run-" + out + "-failed", Oracle: "FAIL close-run-failed " + fmt.Sprint(err), Tags: tags}
+	}
+	obs, oracle, _ := closeAndSample(a, samplers, func(i int) string {
+		return fmt.Sprintf("component \"vc%03d\"; user post-processors of the start: %s", i, strings.Join(descr, "; "))
+	})
+	return hx.Case{Scn: scn, Obs: obs, Oracle: oracle, Tags: tags}
+}
+
+func genCloseQ(r *hx.Rng) hx.Case {
+	n := 1 + r.Intn(8)
+	if r.P(1, 10) {
+		n = r.Intn(17)
+	}
+	np := 1 + r.Intn(3)
+	if r.P(1, 10) {
+		np = 0
+	}
+	var toks []string
+	for i := 0; i < np; i++ {
+		class := "pou"[r.Intn(3)]
+		digit := r.Intn(len(closeqOrders))
+		if class == 'u' {
+			digit = 0
+		}
+		answer := byte('d')
+		if r.P(1, 3) {
+			answer = 't'
+		}
+		toks = append(toks, fmt.Sprintf("%c%d%c", class, digit, answer))
+	}
+	procs := "-"
+	if len(toks) > 0 {
+		procs = strings.Join(toks, ".")
+	}
+	all := uint64(1)<<uint(n) - 1
+	var mask uint64
+	switch r.Intn(4) {
+	case 0:
+	case 1:
+		mask = all
+	default:
+		mask = r.U64() & all
+	}
+	return runCloseQ(n, mask, procs, r.U64()%1000000, 30)
+}
+
+// ---- closeh: other components with an injection point of the closer interface type
+
+type vQCloser struct {
+	vCloser
+	Q string
+}
+
+func (c *vQCloser) Qualifier() string { return c.Q }
+
+type (
+	vHoldLD struct {
+		N  string
+		Cs []definition.CloserComponent `wire:",qualifier=db"`
+	}
+	vHoldLM struct {
+		N  string
+		Cs []definition.CloserComponent `wire:",qualifier=mq"`
+	}
+	vHoldLN struct {
+		N  string
+		Cs []definition.CloserComponent `wire:""`
+	}
+	vHoldOD struct {
+		N string
+		C definition.CloserComponent `wire:",qualifier=db"`
+	}
+	vHoldOM struct {
+		N string
+		C definition.CloserComponent `wire:",qualifier=mq"`
+	}
+	vHoldON struct {
+		N string
+		C definition.CloserComponent `wire:""`
+	}
+)
+
+func (h *vHoldLD) Naming() string { return h.N }
+func (h *vHoldLM) Naming() string { return h.N }
+func (h *vHoldLN) Naming() string { return h.N }
+func (h *vHoldOD) Naming() string { return h.N }
+func (h *vHoldOM) Naming() string { return h.N }
+func (h *vHoldON) Naming() string { return h.N }
+
+func parseHolders(s string) ([]string, bool) {
+	if s == "-" {
+		return nil, true
+	}
+	toks := strings.Split(s, ".")
+	for _, t := range toks {
+		if len(t) != 3 || !strings.ContainsRune("lo", rune(t[0])) || !strings.ContainsRune("dmn", rune(t[1])) || !strings.ContainsRune("ba", rune(t[2])) {
+			return nil, false
+		}
+	}
+	return toks, len(toks) <= 6
+}
+
+func newHolder(t string, k int) any {
+	name := fmt.Sprintf("z-vh%d", k)
+	if t[2] == 'b' {
+		name = fmt.Sprintf("a-vh%d", k)
+	}
+	switch t[:2] {
+	case "ld":
+		return &vHoldLD{N: name}
+	case "lm":
+		return &vHoldLM{N: name}
+	case "ln":
+		return &vHoldLN{N: name}
+	case "od":
+		return &vHoldOD{N: name}
+	case "om":
+		return &vHoldOM{N: name}
+	}
+	return &vHoldON{N: name}
+}
+
+// runCloseH: see above (`closeh`).
+func runCloseH(n int, mask uint64, quals, holders string, seed uint64, maxDelayMs int) hx.Case {
+	concQuiet()
+	scn := fmt.Sprintf("closeh %d %d %s %s %d", n, mask, quals, holders, seed)
+	toks, ok := parseHolders(holders)
+	ok = ok && n >= 0 && n <= 40 && mask>>uint(n) == 0 && (len(quals) == n || (n == 0 && quals == "-"))
+	if ok && n > 0 {
+		for _, q := range []byte(quals) {
+			if !strings.ContainsRune("sdm", rune(q)) {
+				ok = false
+			}
+		}
+	}
+	if ok {
+		for _, t := range toks {
+			switch t[1] {
+			case 'n':
+				ok = ok && n > 0
+			default:
+				ok = ok && n > 0 && strings.IndexByte(quals, t[1]) >= 0
+			}
+		}
+	}
+	if !ok {
+		return hx.Case{Scn: scn, Obs: "bad-line", Oracle: "FAIL bad-line"}
+	}
+	rng := hx.NewRng(seed ^ 0xC105ED)
+	var comps []any
+	var samplers []closeSampler
+	var whats []string
+	nfail, nqual, nearly, nnarrow := 0, 0, 0, 0
+	for i := 0; i < n; i++ {
+		d := time.Duration(0)
+		if maxDelayMs > 0 && rng.P(1, 2) {
+			d = time.Duration(rng.Intn(maxDelayMs*1000+1)) * time.Microsecond
+		}
+		base := vCloser{N: fmt.Sprintf("vc%03d", i), delay: d, fail: bit(mask, i)}
+		if base.fail {
+			nfail++
+		}
+		if quals[i] == 's' {
+			c := &vCloser{N: base.N, delay: base.delay, fail: base.fail}
+			comps = append(comps, c)
+			samplers = append(samplers, func() (int32, int32) { return atomic.LoadInt32(&c.calls), atomic.LoadInt32(&c.done) })
+			whats = append(whats, fmt.Sprintf("component %q without qualifier", c.N))
+			continue
+		}
+		nqual++
+		c := &vQCloser{Q: map[byte]string{'d': "db", 'm': "mq"}[quals[i]]}
+		c.N, c.delay, c.fail = base.N, base.delay, base.fail
+		comps = append(comps, c)
+		samplers = append(samplers, func() (int32, int32) { return atomic.LoadInt32(&c.calls), atomic.LoadInt32(&c.done) })
+		whats = append(whats, fmt.Sprintf("component %q with qualifier %q", c.N, c.Q))
+	}
+	var descr []string
+	for k, t := range toks {
+		comps = append(comps, newHolder(t, k))
+		field := map[byte]string{'l': "[]definition.CloserComponent", 'o': "definition.CloserComponent"}[t[0]]
+		tag := map[byte]string{'d': `wire:",qualifier=db"`, 'm': `wire:",qualifier=mq"`, 'n': `wire:""`}[t[1]]
+		pos := map[byte]string{'b': "populated before the App", 'a': "populated after the App"}[t[2]]
+		descr = append(descr, fmt.Sprintf("%s `%s` (%s)", field, tag, pos))
+		if t[2] == 'b' {
+			nearly++
+			if t[1] != 'n' {
+				nnarrow++
+			}
+		}
+	}
+	if len(comps) > 1 {
+		r := rng.Intn(len(comps))
+		comps = append(append([]any{}, comps[r:]...), comps[:r]...)
+	}
+	tags := []string{"close", "other-holders-of-closers", fmt.Sprintf("closers=%s", bucket(n)), fmt.Sprintf("failing=%s", bucket(nfail)),
+		fmt.Sprintf("closers-with-qualifier=%s", bucket(nqual)), fmt.Sprintf("holders=%s", bucket(len(toks))),
+		fmt.Sprintf("holders-before-the-app=%s", bucket(nearly)), fmt.Sprintf("narrowing-holders-before-the-app=%s", bucket(nnarrow))}
+	if nnarrow == 0 || n < 2 {
+		tags = append(tags, "trivial")
+	}
+	a := app.NewApp()
+	var err error
+	if out := withWatchdog(20*time.Second, func() { err = a.Run(app.SetComponents(comps...), app.SetConfigLoader()) }); out != "" || err != nil {
+		return hx.Case{Scn: scn, Obs: "run-" + out + "-failed", Oracle: "FAIL close-run-failed " + fmt.Sprint(err), Tags: tags}
+	}
+	obs, oracle, _ := closeAndSample(a, samplers, func(i int) string {
+		return fmt.Sprintf("%s; other components with a closer injection point: %s", whats[i], strings.Join(descr, "; "))
+	})
+	return hx.Case{Scn: scn, Obs: obs, Oracle: oracle, Tags: tags}
+}
+
+func genCloseH(r *hx.Rng) hx.Case {
+	n := 3 + r.Intn(8)
+	if r.P(1, 8) {
+		n = 1 + r.Intn(2)
+	}
+	quals := make([]byte, n)
+	for i := range quals {
+		quals[i] = "ssdm"[r.Intn(4)]
+		if r.P(1, 4) {
+			quals[i] = 'd'
+		}
+	}
+	nh := 1 + r.Intn(3)
+	if r.P(1, 10) {
+		nh = 0
+	}
+	var toks []string
+	for i := 0; i < nh; i++ {
+		kind := byte('l')
+		if r.P(1, 3) {
+			kind = 'o'
+		}
+		q := "ddmn"[r.Intn(4)]
+		if q != 'n' && strings.IndexByte(string(quals), q) < 0 {
+			quals[r.Intn(n)] = q // somebody carries the qualifier the holder asks for
+		}
+		pos := byte('b')
+		if r.P(1, 4) {
+			pos = 'a'
+		}
+		toks = append(toks, string([]byte{kind, q, pos}))
+	}
+	// a later holder may have overwritten the only carrier of an earlier holder's qualifier: give it one back
+	for _, t := range toks {
+		if t[1] != 'n' && strings.IndexByte(string(quals), t[1]) < 0 {
+			for i := range quals {
+				if quals[i] == 's' || strings.Count(string(quals), string(quals[i])) > 1 {
+					quals[i] = t[1]
+					break
+				}
+			}
+		}
+	}
+	for _, t := range toks {
+		if t[1] != 'n' && strings.IndexByte(string(quals), t[1]) < 0 {
+			toks = nil // cannot happen with at most two qualifiers and n >= 3; with n < 3 the line is generated without holders
+			break
+		}
+	}
+	holders := "-"
+	if len(toks) > 0 {
+		holders = strings.Join(toks, ".")
+	}
+	all := uint64(1)<<uint(n) - 1
+	var mask uint64
+	switch r.Intn(4) {
+	case 0:
+	case 1:
+		mask = all
+	default:
+		mask = r.U64() & all
+	}
+	return runCloseH(n, mask, string(quals), holders, r.U64()%1000000, 30)
+}
+
+// ---------------------------------------------------------------- fdirect: the public factory driven directly (ninth round)
+//
+//	fdirect <n> <parts> <starts> <seed>
+//	                             (C20) <starts> fresh starts of the container's public building blocks WITHOUT the App and its built-in
+//	                             processors: `support.NewRegistry()`, n components `vd000…` (each with two tagged fields), the parts,
+//	                             `factory.Default()`, SetRegistry, SetConfigure, PrepareComponents (the parallel definition scan), Refresh.
+//	                             parts = one letter per further registered singleton: `t` a tag scanner for the tag `link`, `u` one for
+//	                             the tag `link2` (both embed the public processors.DefaultTagScanDefinitionRegistryPostProcessor), `r` a
+//	                             recording scanner (asks the registry it is handed for GetMetaOrRegister(name, component) and keeps what
+//	                             it was given), `f` a ComponentFactoryPostProcessor that looks at factory.GetDefinitionRegistry() before
+//	                             the scan (what the App's dependency processors do). At least one scanner, at most one `f`.
+//	                             Observed after every start: registered components without definition, with a definition that lost a
+//	                             scanned property, that cannot be looked up or are not listed (`lost`); components for which two
+//	                             scanners were handed different definitions or not the one the registry keeps (`two`).
+//	                             observation  errs=<0|?> lost=<k> two=<k>  (of the first deviating start, else of the last) | race
+//
+// Oracles: no race report (race); every component registered before the start has its definition, with what every scanner
+// stored in it, after the parallel scan (scan-definition-lost); all scanners are handed the one definition the registry keeps
+// (scan-two-definitions).
+
+type vDSvc struct {
+	N    string
+	Peer *vDSvc `link:"peer"`
+	Aux  *vDSvc `link2:"aux"`
+}
+
+func (s *vDSvc) Naming() string { return s.N }
+
+type vDTagScanner struct {
+	processors.DefaultTagScanDefinitionRegistryPostProcessor
+	N string
+}
+
+func (s *vDTagScanner) Naming() string { return s.N }
+
+type vDRecScanner struct {
+	N   string
+	mu  sync.Mutex
+	got map[string]*component_definition.Meta
+	nil int
+}
+
+func (s *vDRecScanner) Naming() string { return s.N }
+func (s *vDRecScanner) PostProcessDefinitionRegistry(registry container.DefinitionRegistry, component any, name string) error {
+	var m *component_definition.Meta
+	if registry != nil {
+		m = registry.GetMetaOrRegister(name, component)
+	}
+	s.mu.Lock()
+	if m == nil {
+		s.nil++
+	}
+	s.got[name] = m
+	s.mu.Unlock()
+	return nil
+}
+
+type vDFactoryPP struct{ N string }
+
+func (p *vDFactoryPP) Naming() string { return p.N }
+func (p *vDFactoryPP) PostProcessComponentFactory(f container.Factory) error {
+	_ = f.GetDefinitionRegistry()
+	return nil
+}
+
+func runFdirect(n int, parts string, starts int, seed uint64) hx.Case {
+	concQuiet()
+	c := hx.Case{Scn: fmt.Sprintf("fdirect %d %s %d %d", n, parts, starts, seed)}
+	ok := n >= 1 && n <= 96 && starts >= 1 && starts <= 2000 && len(parts) >= 1 && len(parts) <= 6
+	nscan := 0
+	for _, p := range []byte(parts) {
+		switch p {
+		case 't', 'u', 'r':
+			nscan++
+		case 'f':
+		default:
+			ok = false
+		}
+	}
+	if !ok || nscan == 0 || strings.Count(parts, "f") > 1 || strings.Count(parts, "t") > 1 || strings.Count(parts, "u") > 1 {
+		c.Obs, c.Oracle = "bad-line", "FAIL bad-line"
+		return c
+	}
+	c.Tags = []string{"scan", "factory-driven-directly", fmt.Sprintf("components=%s", bucket(n)), fmt.Sprintf("scanners=%d", nscan)}
+	if strings.Contains(parts, "f") {
+		c.Tags = append(c.Tags, "registry-looked-at-before-the-scan", "trivial")
+	} else {
+		c.Tags = append(c.Tags, "first-look-at-the-registry-inside-the-scan")
+	}
+	if runtime.GOMAXPROCS(0) < 4 {
+		defer runtime.GOMAXPROCS(runtime.GOMAXPROCS(4))
+	}
+	rng := hx.NewRng(seed ^ 0xC105EE)
+	for start := 0; start < starts; start++ {
+		reg := support.NewRegistry()
+		var svcs []*vDSvc
+		var all []any
+		for i := 0; i < n; i++ {
+			s := &vDSvc{N: fmt.Sprintf("vd%03d", i)}
+			svcs = append(svcs, s)
+			all = append(all, s)
+		}
+		var recs []*vDRecScanner
+		tagScanners := 0
+		for k, p := range []byte(parts) {
+			switch p {
+			case 't', 'u':
+				tag := map[byte]string{'t': "link", 'u': "link2"}[p]
+				all = append(all, &vDTagScanner{N: fmt.Sprintf("vdscan%d", k), DefaultTagScanDefinitionRegistryPostProcessor: processors.DefaultTagScanDefinitionRegistryPostProcessor{
+					NodeType: component_definition.PropertyTypeComponent, Tag: tag}})
+				tagScanners++
+			case 'r':
+				r := &vDRecScanner{N: fmt.Sprintf("vdscan%d", k), got: map[string]*component_definition.Meta{}}
+				recs = append(recs, r)
+				all = append(all, r)
+			case 'f':
+				all = append(all, &vDFactoryPP{N: fmt.Sprintf("vdfpp%d", k)})
+			}
+		}
+		names := make([]string, len(all))
+		for i, x := range all {
+			names[i] = x.(interface{ Naming() string }).Naming()
+		}
+		for _, j := range rng.Perm(len(all)) {
+			reg.RegisterSingleton(all[j])
+		}
+		f := factory.Default()
+		var err error
+		out := withWatchdog(20*time.Second, func() {
+			f.SetRegistry(reg)
+			f.SetConfigure(configure.Default())
+			if err = f.PrepareComponents(); err == nil {
+				err = f.Refresh()
+			}
+		})
+		if out != "" {
+			c.Obs, c.Oracle = out, "FAIL scan-"+out+" PrepareComponents / Refresh did not return normally"
+			return c
+		}
+		if err != nil {
+			// no scanner fails here; not a statement of C20: left to the comparison with the model
+			c.Obs = "errs=? lost=0 two=0"
+			return c
+		}
+		dr := f.GetDefinitionRegistry()
+		lost, two := 0, 0
+		firstLost, firstTwo := "", ""
+		listed := map[string]int{}
+		for _, m := range dr.GetMetas() {
+			listed[m.Name()]++
+		}
+		for i, name := range names {
+			kept := dr.GetMetaByName(name)
+			why := ""
+			switch {
+			case kept == nil:
+				why = "has no definition"
+			case listed[name] != 1:
+				why = fmt.Sprintf("is listed %d times by GetMetas()", listed[name])
+			case i < n && len(kept.GetComponentProperties()) != tagScanners:
+				why = fmt.Sprintf("has a definition with %d scanned properties; %d tag scanner(s) stored one each", len(kept.GetComponentProperties()), tagScanners)
+			default:
+				if got, e := f.GetComponentByName(name); e != nil || got != all[i] {
+					why = fmt.Sprintf("cannot be looked up (%v)", e)
+				}
+			}
+			if why != "" {
+				lost++
+				if firstLost == "" {
+					firstLost = fmt.Sprintf("component %q %s", name, why)
+				}
+			}
+			for _, r := range recs {
+				r.mu.Lock()
+				m, seen := r.got[name]
+				r.mu.Unlock()
+				if !seen || m == nil || m != kept {
+					two++
+					if firstTwo == "" {
+						firstTwo = fmt.Sprintf("scanner %q was handed a definition of %q that is not the one the registry keeps", r.N, name)
+					}
+					break
+				}
+			}
+		}
+		c.Obs = fmt.Sprintf("errs=0 lost=%d two=%d", lost, two)
+		if lost != 0 {
+			c.Oracle = fmt.Sprintf("FAIL scan-definition-lost start %d of factory.Default() + SetRegistry + PrepareComponents + Refresh with %d components and the parts %q: "+
+				"%s after the parallel definition scan (%d such components)", start, n, parts, firstLost, lost)
+			return c
+		}
+		if two != 0 {
+			c.Oracle = fmt.Sprintf("FAIL scan-two-definitions start %d of the factory driven directly with %d components and the parts %q: %s (%d such components)",
+				start, n, parts, firstTwo, two)
+			return c
+		}
+	}
+	return c
+}
+
+func genFdirectLine(r *hx.Rng, tier string) string {
+	n := 8 + r.Intn(41)
+	if r.P(1, 8) {
+		n = 2 + r.Intn(6)
+	}
+	parts := []string{"t", "r", "tr", "tu", "rr", "tur", "trr", "r", "t", "tf", "rf"}[r.Intn(11)]
+	starts := 25
+	if tier == "thorough" {
+		starts = 100
+	}
+	return fmt.Sprintf("fdirect %d %s %d %d", n, parts, starts, r.U64()%1000000)
 }
